@@ -123,6 +123,29 @@ func c20Units(ctx *core.Ctx) []core.Unit {
 			}
 		}})
 	}
+	us = append(us, core.Unit{Name: "partition: large worker limits, and decreasing m for the same n (call order)", Run: func(ctx *core.Ctx, r *core.Result) {
+		ms := []int{300, 257, 256, 255, 129, 128, 100, 65, 33, 8, 3, 2, 1}
+		ns := []int{0, 1, 2, 17, 255, 256, 257, 300, 513, 1000, 1001, 2048}
+		for _, n := range ns {
+			for _, m := range ms { // decreasing: a later call must not reuse the split of an earlier one
+				var rs [][2]int
+				var st, fin int64
+				in := fmt.Sprintf("Execute(n=%d, work, m=%d) after calls with larger m", n, m)
+				if !timed(r, "c20.panic", "parallel.Execute", in, func() { rs, st, fin = freeRun(n, m, false) }) {
+					continue
+				}
+				r.Evals++
+				r.Nontrivial++
+				if msg := judgeRanges(n, m, rs); msg != "" {
+					vio(r, "c20.partition", "parallel.Execute", in, "disjoint contiguous non-empty ranges covering [0,n), at most min(n,m)", msg)
+				}
+				if st != fin {
+					vio(r, "c20.join", "parallel.Execute", in, "every started invocation finished at return", fmt.Sprintf("started=%d finished=%d", st, fin))
+				}
+			}
+		}
+		r.Sample(map[string]interface{}{"m": ms, "n": ns, "order": "m decreasing for each n"})
+	}})
 	// default-m form under the NumCPU seam
 	us = append(us, core.Unit{Name: "partition default-m under NumCPU seam", Run: func(ctx *core.Ctx, r *core.Result) {
 		if !vsched.Instrumented {
@@ -150,6 +173,25 @@ func c20Units(ctx *core.Ctx) []core.Unit {
 			}
 		}
 		vsched.SetNumCPU(0)
+		// CPU count and GOMAXPROCS that differ: the default limit is the CPU count
+		for _, cfg := range [][2]int{{4, 16}, {16, 48}, {2, 1}, {16, 4}} {
+			vsched.SetNumCPU(cfg[0])
+			vsched.SetGoMaxProcs(cfg[1])
+			for _, n := range []int{0, 1, 3, 5, 17, 100} {
+				rs, st, fin := freeRun(n, 0, true)
+				r.Evals++
+				r.Nontrivial++
+				in := fmt.Sprintf("Execute(n=%d, work) with NumCPU=%d GOMAXPROCS=%d", n, cfg[0], cfg[1])
+				if msg := judgeRanges(n, cfg[0], rs); msg != "" {
+					vio(r, "c20.partition", "parallel.Execute", in, "disjoint contiguous non-empty ranges covering [0,n), at most min(n,NumCPU)", msg)
+				}
+				if st != fin {
+					vio(r, "c20.join", "parallel.Execute", in, "every started invocation finished at return", fmt.Sprintf("started=%d finished=%d", st, fin))
+				}
+			}
+		}
+		vsched.SetNumCPU(0)
+		vsched.SetGoMaxProcs(0)
 		r.Sample(map[string]interface{}{"numcpu_values": cpus, "n_range": []int{0, maxN}})
 	}})
 	// (b) schedules
